@@ -293,6 +293,9 @@ def p_rules(P, E):
                     up = P.bodies[cl]
                 if cl in P.bodies and role == "COUNT_DOWN":
                     down = P.bodies[cl]
+        if up is None or down is None:
+            r.error("P: connect / disconnect hook closures not found in %s" % root)
+            continue
         # P2: test-and-set under one W guard
         sa, held, sh = _acq_field(P, up, "subscription")
         tests = [c for c in up.calls if c.path in ("std::option::Option::is_some", "std::option::Option::is_none")
@@ -393,16 +396,20 @@ def d_rules(P, E, H):
     if tk is None:
         r.error("anchor missing: take next-handler")
     else:
-        designated.append((tk, "n", "take counter"))
+        designated.append((tk, None, "take counter"))
     amb = P.body("operators::amb::Amb::execute")
     if amb is None:
         r.error("anchor missing: Amb::execute")
     else:
-        iw = [b for b in P.descendants(amb) if _acq_field_local(P, b, "winner")]
+        # the winner decision runs (inlined) in each of amb's handlers: exactly one exclusive access each
+        iw = []
+        for t in H.triples:
+            if t["root"] == "operators::amb::Amb":
+                iw += [hb for hb in t["handlers"].values() if hb is not None and hb.accesses()]
         if not iw:
-            r.error("anchor missing: amb is_win closure (winner cell)")
+            r.error("anchor missing: amb handlers deciding the winner")
         for b in iw:
-            designated.append((b, "winner", "amb winner"))
+            designated.append((b, None, "amb winner"))
     zp = P.body("operators::zip::Zip::execute")
     if zp is None:
         r.error("anchor missing: Zip::execute")
@@ -469,21 +476,24 @@ def d_rules(P, E, H):
                 r.violate(("D1", b.nid, what + " not cleared"), "the stored item is emitted but never cleared: it is delivered again on the next tick", body=b)
     for (b, cellname, what) in designated:
         acqs, held, _ = b.guards()
+        acc = b.accesses()
         if isinstance(cellname, frozenset):
-            sel = {bb: a for bb, a in acqs.items() if a["cell"] & cellname}
+            sel = [a for a in acc if a["cell"] & cellname]
+        elif cellname is None:
+            sel = acc
         else:
-            sel = {bb: a for bb, a in acqs.items() if cellname is None or any(cellname in b.term_name(t) for t in a["cell"])}
-        r.instance(("D1", b.nid, what), True, "acquisitions %s" % {k: v["mode"] for k, v in sel.items()})
+            sel = [a for a in acc if any(cellname in b.term_name(t) for t in a["cell"])]
+        r.instance(("D1", b.nid, what), True, "accesses %s" % [(a["bb"], a["kind"]) for a in sel])
         if len(sel) != 1:
             r.violate(("D1", b.nid, "%s: %d acquisitions" % (what, len(sel))),
-                      "the %s is not decided under exactly one guard (%d acquisitions of the cell in this body): a value read "
-                      "under one guard is acted on under another, two threads can both decide `mine`" % (what, len(sel)), body=b)
+                      "the %s is not decided in exactly one atomic step (%d accesses to the cell in this body): a value read "
+                      "in one step is acted on in another, two threads can both decide `mine`" % (what, len(sel)), body=b)
             continue
-        a = list(sel.values())[0]
-        if a["mode"] not in ("W", "M"):
+        a = sel[0]
+        if a["kind"] not in ("W", "M", "RMW"):
             r.violate(("D1", b.nid, "%s decided under a read guard" % what),
-                      "the %s is tested/updated under a %s guard: concurrent inputs are not excluded" % (what, a["mode"]), body=b)
-        a0 = list(sel)[0]
+                      "the %s is tested/updated with a %s access: concurrent inputs are not excluded" % (what, a["kind"]), body=b)
+        a0 = a["bb"]
         for c in b.calls:
             if a0 in held.get(c.bb, set()) and atom(c) in ("sink_next", "sink_error", "sink_complete", "sink_complete_force", "abort", "finalize"):
                 r.violate(("D2", b.nid, "%s guard across emission" % what), "emission while the deciding guard is held", body=b, line=c.line)
@@ -536,7 +546,9 @@ def a19b(P, E):
         r.error("anchor missing: struct Observer")
         return r
     bool_fields = [f["name"] for v in adt["variants"] for f in v["fields"]
-                   if any(l["end"] == "lock" and l["ty"] in ("std::sync::RwLock<bool>", "std::sync::Mutex<bool>") for l in f["leaves"])]
+                   if any(l["end"] == "lock" and l["ty"] in ("std::sync::RwLock<bool>", "std::sync::Mutex<bool>",
+                                                               "std::sync::atomic::Atomic<bool>", "std::sync::atomic::AtomicBool")
+                          for l in f["leaves"])]
     arb_cells = {}
     for name, slot in (("error", "fn_error"), ("complete", "fn_complete")):
         b = P.body(OBSERVER + "::" + name)
@@ -578,9 +590,9 @@ def a19b(P, E):
                 tas = (o0 and o1 and any(o.ret == 1 for o in o0)
                        and all((o.ret == 1 and o.state == (True,)) or (o.ret == 0 and o.state == (False,)) for o in o0)
                        and all(o.ret == 0 and o.state == (True,) for o in o1))
-                acqs, _, _ = cb.guards()
-                fa = {bb: a for bb, a in acqs.items() if any(rk == "param" and rd == 1 and path[:1] == (f,) for (rk, rd, path) in a["cell"])}
-                if tas and len(fa) == 1 and list(fa.values())[0]["mode"] in ("W", "M") and len(acqs) == 1:
+                # one atomic step: exactly one exclusive access (write/mutex guard, or atomic read-modify-write) to the flag
+                acc = [a for a in cb.accesses() if any(rk == "param" and rd == 1 and path[:1] == (f,) for (rk, rd, path) in a["cell"])]
+                if tas and len(acc) == 1 and acc[0]["kind"] in ("W", "M", "RMW"):
                     found = (c.path, f)
         r.instance((b.nid, "arbiter"), True, "candidates %s -> test-and-set %s" % ([c.path for c, _ in cands], found))
         if not found:
